@@ -9,7 +9,16 @@
    whose declared class is not a match rule; `ids_of` their identities; `below o` the
    identities strictly inside o.  `NoDup (ids_of (nodes d v))` says that the containment
    structure is a tree (no object is contained twice), which is what parsing produces. *)
-From TxV Require Import Core.Base Model.Proc Gen.SrcLoad Proofs.ProcProofs.
+From TxV Require Import Core.Base Model.Proc Gen.SrcLoad Gen.SrcProc Proofs.ProcProofs.
+
+(* 0. `walk` is instantiated by `src_facts`, the facts tools/translate/proc_tr.py reads from the
+   text of call_obj_processors on every run (block order, the tests guarding recursion and
+   replacement, the own-class condition, the return policy).  The facts of the current source
+   are exactly the ones the specification describes; every theorem below is about
+   `walk src_facts` and is therefore re-proved against the source. *)
+Theorem C13_source_facts : src_facts = std_facts.
+Proof. exact src_facts_std. Qed.
+Print Assumptions C13_source_facts.
 
 (* 1. The walk is the post-order schedule.  For every tree, metadata, registration set and
    processor behaviour: the calls made (in order, with the argument as it is at call time) are
@@ -17,30 +26,30 @@ From TxV Require Import Core.Base Model.Proc Gen.SrcLoad Proofs.ProcProofs.
    differs from the declared one and is registered] ++ [declared-class processor if
    registered]; the tree left behind is the bottom-up replacement result `after`; the value
    returned is the own-class result if not None, else the declared-class result. *)
-Theorem C13_log : forall reg proc d v log,
-  walk reg proc d v log =
+Theorem C13_log : forall reg proc truthy d v log,
+  walk src_facts reg proc truthy d v log =
   (log ++ schedule reg proc d v, after reg proc d v,
    if d_match d then None else result reg proc d (after reg proc d v)).
-Proof. exact walk_spec. Qed.
+Proof. exact walk_src_spec. Qed.
 Print Assumptions C13_log.
 
-Theorem C13_log_root : forall reg proc d v,
-  walk_root reg proc d v = (schedule reg proc d v, after reg proc d v).
-Proof. exact walk_root_spec. Qed.
+Theorem C13_log_root : forall reg proc truthy d v,
+  walk_root src_facts reg proc truthy d v = (schedule reg proc d v, after reg proc d v).
+Proof. exact walk_root_src_spec. Qed.
 Print Assumptions C13_log_root.
 
 (* 2. Exactly once per object of a common rule: every object contained in the model whose
    rule has a processor gets exactly one call of that processor. *)
-Theorem C13_once_per_common_object : forall reg proc d v d' id c fs,
+Theorem C13_once_per_common_object : forall reg proc truthy d v d' id c fs,
   NoDup (ids_of (nodes d v)) -> In (d', VObj id c fs) (nodes d v) -> reg (c_nm c) = true ->
-  calls_on (c_nm c) id (log_of reg proc d v) = 1.
+  calls_on (c_nm c) id (log_of reg proc truthy d v) = 1.
 Proof. exact final_once_own. Qed.
 Print Assumptions C13_once_per_common_object.
 
 (* the complete account of the calls an object receives, for every processor name p *)
-Theorem C13_calls_exact : forall reg proc d v d' id c fs p,
+Theorem C13_calls_exact : forall reg proc truthy d v d' id c fs p,
   NoDup (ids_of (nodes d v)) -> In (d', VObj id c fs) (nodes d v) ->
-  calls_on p id (log_of reg proc d v) =
+  calls_on p id (log_of reg proc truthy d v) =
   b2n (own_called reg c d' && Nat.eqb (c_nm c) p) + b2n (reg (d_nm d') && Nat.eqb (d_nm d') p).
 Proof. exact final_calls_count. Qed.
 Print Assumptions C13_calls_exact.
@@ -48,18 +57,18 @@ Print Assumptions C13_calls_exact.
 (* 3. A processor registered for the declared (abstract) rule of an attribute runs exactly once
    for each object stored in it, immediately after the processor of the object's own rule,
    on the same argument; and once for every non-object value stored in it. *)
-Theorem C13_abstract_after_own : forall reg proc d v d' id c fs,
+Theorem C13_abstract_after_own : forall reg proc truthy d v d' id c fs,
   NoDup (ids_of (nodes d v)) -> In (d', VObj id c fs) (nodes d v) -> reg (d_nm d') = true ->
-  calls_on (d_nm d') id (log_of reg proc d v) = 1 /\
+  calls_on (d_nm d') id (log_of reg proc truthy d v) = 1 /\
   (c_nm c <> d_nm d' -> reg (c_nm c) = true ->
-   exists l1 l2, log_of reg proc d v =
+   exists l1 l2, log_of reg proc truthy d v =
      l1 ++ [(c_nm c, after reg proc d' (VObj id c fs)); (d_nm d', after reg proc d' (VObj id c fs))] ++ l2).
 Proof. exact final_declared. Qed.
 Print Assumptions C13_abstract_after_own.
 
-Theorem C13_abstract_on_values : forall reg proc d v d' a,
+Theorem C13_abstract_on_values : forall reg proc truthy d v d' a,
   In (d', VAtom a) (nodes d v) -> reg (d_nm d') = true ->
-  exists l1 l2, log_of reg proc d v = l1 ++ [(d_nm d', VAtom a)] ++ l2.
+  exists l1 l2, log_of reg proc truthy d v = l1 ++ [(d_nm d', VAtom a)] ++ l2.
 Proof. exact final_atoms. Qed.
 Print Assumptions C13_abstract_on_values.
 
@@ -67,10 +76,10 @@ Print Assumptions C13_abstract_on_values.
    l1 ++ (sub ++ own) ++ l2 where `sub` are exactly the calls for everything contained in o
    (all on objects below o), `own` the calls on o itself, and no call on o or on anything
    below o happens before or after this block. *)
-Theorem C13_children_before_parents : forall reg proc d v d' id c fs,
+Theorem C13_children_before_parents : forall reg proc truthy d v d' id c fs,
   NoDup (ids_of (nodes d v)) -> In (d', VObj id c fs) (nodes d v) ->
   exists l1 sub own l2,
-    log_of reg proc d v = l1 ++ (sub ++ own) ++ l2 /\
+    log_of reg proc truthy d v = l1 ++ (sub ++ own) ++ l2 /\
     sub = flat_map (events reg) (visits_fields reg proc fs) /\
     own = events reg (d', after reg proc d' (VObj id c fs)) /\
     (forall e i, In e sub -> ev_id e = Some i -> In i (below (VObj id c fs))) /\
@@ -85,14 +94,14 @@ Print Assumptions C13_children_before_parents.
    replaces exactly this slot and else the (processed) object stays; the own-class result
    dominates the declared-class result; list slots are settled position by position;
    non-containment attributes are untouched. *)
-Theorem C13_replacement_single : forall reg proc n d v rest log,
-  snd (walk_fields reg proc (FOne n true d v rest) log) =
+Theorem C13_replacement_single : forall reg proc truthy n d v rest log,
+  snd (walk_fields src_facts reg proc truthy (FOne n true d v rest) log) =
   FOne n true d (settle reg proc d v) (after_fields reg proc rest).
 Proof. exact final_slot_one. Qed.
 Print Assumptions C13_replacement_single.
 
-Theorem C13_replacement_list : forall reg proc n d vs rest log,
-  exists vs', snd (walk_fields reg proc (FMany n true d vs rest) log) =
+Theorem C13_replacement_list : forall reg proc truthy n d vs rest log,
+  exists vs', snd (walk_fields src_facts reg proc truthy (FMany n true d vs rest) log) =
               FMany n true d vs' (after_fields reg proc rest) /\
               values_to_list vs' = map (settle reg proc d) (values_to_list vs).
 Proof. exact final_slot_many. Qed.
@@ -115,8 +124,8 @@ Theorem C13_own_result_dominates : forall reg proc d id c fs r,
 Proof. exact result_own_dominates. Qed.
 Print Assumptions C13_own_result_dominates.
 
-Theorem C13_references_untouched : forall reg proc n d v rest log,
-  snd (walk_fields reg proc (FOne n false d v rest) log) = FOne n false d v (after_fields reg proc rest).
+Theorem C13_references_untouched : forall reg proc truthy n d v rest log,
+  snd (walk_fields src_facts reg proc truthy (FOne n false d v rest) log) = FOne n false d v (after_fields reg proc rest).
 Proof. exact final_noncont_untouched. Qed.
 Print Assumptions C13_references_untouched.
 
@@ -155,6 +164,43 @@ Proof.
 Qed.
 Print Assumptions C13_processors_once_per_model.
 
+(* 7. Match-rule processors (model.py process_match, run while the object tree is built): for
+   every parse subtree of a match-rule value, every registration set and processor behaviour,
+   the calls are the post-order of the subtree - children left to right, innermost first -
+   and the value is the bottom-up conversion result; over the match values of a build in the
+   order process_node reaches them the logs concatenate; a registered node is called after
+   all its children, on the concatenation of their results. *)
+Theorem C13_match_postorder : forall mreg mproc t log,
+  pmatch mreg mproc t log = (log ++ mevents mreg mproc t, mval mreg mproc t).
+Proof. exact pmatch_spec. Qed.
+Print Assumptions C13_match_postorder.
+
+Theorem C13_match_left_to_right : forall mreg mproc ts log,
+  pmatch_forest mreg mproc ts log = log ++ flat_map (mevents mreg mproc) ts.
+Proof. exact pmatch_forest_spec. Qed.
+Print Assumptions C13_match_left_to_right.
+
+Theorem C13_match_innermost_first : forall mreg mproc r k ks,
+  mreg r = true ->
+  mevents mreg mproc (PNode r (PCons k ks)) =
+  (mevents mreg mproc k ++ mevents_kids mreg mproc ks) ++ [(r, mval mreg mproc k ++ mvals mreg mproc ks)].
+Proof. intros mreg mproc r k ks H. exact (mevents_node mreg mproc r (PCons k ks) H). Qed.
+Print Assumptions C13_match_innermost_first.
+
+(* WWW(3): WW(2) '+' WW(2); WW: W(1) ('-' W)?; all three registered, W upper-cases (here: appends
+   33 "!"), on the text w4-w5+w6 *)
+Example C13_nonvacuous_match :
+  let t := PNode 3 (PCons (PNode 2 (PCons (PTerm 1 [119;52]%N) (PCons (PTerm 0 [45]%N) (PCons (PTerm 1 [119;53]%N) PNil))))
+                   (PCons (PTerm 0 [43]%N) (PCons (PNode 2 (PCons (PTerm 1 [119;54]%N) PNil)) PNil))) in
+  let mreg := fun r => Nat.leb 1 r in
+  let mproc := fun (r : nat) (s : list N) => if Nat.eqb r 1 then s ++ [33]%N else s in
+  pmatch mreg mproc t [] =
+  ([(1, [119;52]%N); (1, [119;53]%N); (2, [119;52;33;45;119;53;33]%N); (1, [119;54]%N); (2, [119;54;33]%N);
+    (3, [119;52;33;45;119;53;33;43;119;54;33]%N)],
+   [119;52;33;45;119;53;33;43;119;54;33]%N).
+Proof. vm_compute. reflexivity. Qed.
+Print Assumptions C13_nonvacuous_match.
+
 (* Non-vacuity: a model  Model{shapes=[Circle c1, Box b1{items=[Circle c2]}], ref->c2, v=5}
    with `shapes`/`items` typed by the abstract rule Shape(3), `v` typed by Val(5) which has an
    INT alternative; processors on Circle(1) Box(2) Shape(3) Model(0) Val(5); Circle's
@@ -178,9 +224,9 @@ Example C13_nonvacuous_tree :
   In (Dcl (CRef 0 3) false, VObj 4 (CRef 0 1) FNil) (nodes (Dcl (CRef 0 0) false) ex_tree) /\
   In (Dcl (CRef 0 5) false, VAtom 53) (nodes (Dcl (CRef 0 0) false) ex_tree) /\
   ex_reg 1 = true /\ ex_reg 3 = true /\
-  map (fun e => (fst e, ev_id e)) (log_of ex_reg ex_proc (Dcl (CRef 0 0) false) ex_tree) =
+  map (fun e => (fst e, ev_id e)) (log_of ex_reg ex_proc (fun _ => true) (Dcl (CRef 0 0) false) ex_tree) =
     [(1, Some 2); (3, Some 2); (1, Some 4); (3, Some 4); (2, Some 3); (3, Some 3); (5, None); (0, Some 1)] /\
-  model_after ex_reg ex_proc (Dcl (CRef 0 0) false) ex_tree =
+  model_after ex_reg ex_proc (fun _ => true) (Dcl (CRef 0 0) false) ex_tree =
   VObj 1 (CRef 0 0)
     (FMany 0 true (Dcl (CRef 0 3) false)
        (VsCons (VObj 2 (CRef 0 1) FNil)
